@@ -198,14 +198,15 @@ func (d *SFDecoder) getSampleInfo() (uint32, uint32, error) {
 	sfTypeEnterprise = sfType >> 12 // 20 bytes enterprise
 	sfTypeFormat = sfType & 0xfff   // 12 bytes format
 
-	// supports standard sflow data
-	if sfTypeEnterprise != 0 {
-		d.reader.Seek(int64(sfDataLength), 1)
-		return 0, 0, errNoneEnterpriseStandard
-	}
-
 	if err = read(d.reader, &sfDataLength); err != nil {
 		return 0, 0, errDataLengthUnknown
+	}
+
+	// supports standard sflow data: an enterprise specific sample keeps its
+	// whole type, which matches no standard format, so that it is skipped by
+	// its length like any other unknown sample
+	if sfTypeEnterprise != 0 {
+		return sfType, sfDataLength, nil
 	}
 
 	return sfTypeFormat, sfDataLength, nil
